@@ -2,7 +2,11 @@ import FCA.Model.Misc
 /-
 Model of `concepts/formats/{table,cxt,csv_context,wiki_table,fimi}.py` on code-point strings
 (`List Char`): the dumpers produce the exact text, the loaders mirror the hand-written splitters.
-Python string primitives used by the code are re-implemented here with their Python semantics.
+Python string primitives used by the code are re-implemented here with their Python semantics;
+the csv reader is a transcription of CPython's `_csv.c` (`parse_process_char`, `Reader_iternext`)
+for the excel dialect, including the end-of-line events, the empty record of a blank line,
+`_csv.Error` and the field size limit. `strictTable`, `strictCxt`, `strictCsv` are independent
+strict readers written from the format descriptions (they share no code with the loaders).
 -/
 namespace FCA
 
@@ -141,82 +145,289 @@ def dumpCsv (asInt : Bool) (objects properties : List Str) (bools : List (List B
 
 inductive CsvState where
   | startRecord | startField | inField | inQuoted | quoteInQuoted | eatCrnl
-deriving BEq
+deriving DecidableEq, Repr
 
-/-- `csv.reader` (excel dialect, not strict) over the whole text; the file iterator splits lines
-at `\n` only (`io.StringIO` default), and a record can span lines only inside quotes.
-Returns the rows or `none` for `_csv.Error`. -/
+/-- `csv.field_size_limit()` (default; module-global in CPython) -/
+def csvFieldLimit : Nat := 131072
+
+/-- the reader object between two characters: automaton state, characters of the pending field
+(most recent first), fields of the pending record -/
+structure CsvSt where
+  state : CsvState
+  field : Str
+  row : List Str
+
+/-- `parse_reset` -/
+def CsvSt.init : CsvSt := ⟨.startRecord, [], []⟩
+
+/-- `parse_add_char` (`none` = `_csv.Error`: field larger than field limit), then `state := st` -/
+def CsvSt.add (s : CsvSt) (c : Char) (st : CsvState) : Option CsvSt :=
+  if csvFieldLimit ≤ s.field.length then none else some ⟨st, c :: s.field, s.row⟩
+
+/-- `parse_save_field`, then `state := st` -/
+def CsvSt.save (s : CsvSt) (st : CsvState) : CsvSt := ⟨st, [], s.row ++ [s.field.reverse]⟩
+
+/-- `parse_process_char` in state `START_FIELD` (also reached by fall-through from `START_RECORD`) -/
+def csvStartField (s : CsvSt) : Option Char → Option CsvSt
+  | none => some (s.save .startRecord)
+  | some c =>
+    if c == '\n' || c == '\r' then some (s.save .eatCrnl)
+    else if c == '"' then some { s with state := .inQuoted }
+    else if c == ',' then some (s.save .startField)
+    else s.add c .inField
+
+/-- `parse_process_char` of `_csv.c` for the excel dialect (delimiter `,`, quotechar `"`,
+doublequote, no escapechar, no skipinitialspace, not strict). The character `none` is the
+end-of-line event `EOL`; the result `none` is `_csv.Error`. -/
+def csvChar (s : CsvSt) (c : Option Char) : Option CsvSt :=
+  match s.state, c with
+  | .startRecord, none => some s                      -- empty line: the record `[]`
+  | .startRecord, some ch =>
+    if ch == '\n' || ch == '\r' then some { s with state := .eatCrnl } else csvStartField s c
+  | .startField, _ => csvStartField s c
+  | .inField, none => some (s.save .startRecord)
+  | .inField, some ch =>
+    if ch == '\n' || ch == '\r' then some (s.save .eatCrnl)
+    else if ch == ',' then some (s.save .startField)
+    else s.add ch .inField                            -- a `"` in the middle is literal
+  | .inQuoted, none => some s
+  | .inQuoted, some ch =>
+    if ch == '"' then some { s with state := .quoteInQuoted } else s.add ch .inQuoted
+  | .quoteInQuoted, none => some (s.save .startRecord)
+  | .quoteInQuoted, some ch =>
+    if ch == '"' then s.add ch .inQuoted
+    else if ch == ',' then some (s.save .startField)
+    else if ch == '\n' || ch == '\r' then some (s.save .eatCrnl)
+    else s.add ch .inField                            -- not strict
+  | .eatCrnl, none => some { s with state := .startRecord }
+  | .eatCrnl, some ch =>
+    if ch == '\n' || ch == '\r' then some s else none -- new-line character seen in unquoted field
+
+/-- the lines yielded by iterating `io.StringIO(source)`: split after every `\n` (only), the
+line break is kept; the last line may lack it; there is no empty line -/
+def csvLines : Str → List Str
+  | [] => []
+  | c :: cs =>
+    if c == '\n' then [c] :: csvLines cs
+    else match csvLines cs with
+      | [] => [[c]]
+      | l :: ls => (c :: l) :: ls
+
+/-- the body of the loop of `Reader_iternext` for one line: every character, then `EOL` -/
+def csvLine (s : CsvSt) : Str → Option CsvSt
+  | [] => csvChar s none
+  | c :: cs => (csvChar s (some c)).bind fun s' => csvLine s' cs
+
+/-- iterating a `csv.reader` over the given lines to exhaustion, starting in the middle of a
+record (`s`): the records yielded, and whether the iteration ended with `_csv.Error` (`true`)
+instead of `StopIteration`. A record is yielded when the state after a line is `START_RECORD`;
+at the end of the input a pending field (or an open quoted field) is saved and the record yielded. -/
+def csvRecords (s : CsvSt) : List Str → List (List Str) × Bool
+  | [] =>
+    if !s.field.isEmpty || s.state == .inQuoted then ([(s.save .startRecord).row], false)
+    else ([], false)
+  | l :: ls =>
+    match csvLine s l with
+    | none => ([], true)
+    | some s' =>
+      if s'.state == .startRecord then
+        let (rs, e) := csvRecords .init ls
+        (s'.row :: rs, e)
+      else csvRecords s' ls
+
+/-- `csv.reader(io.StringIO(text))` consumed lazily: rows before the end / the error -/
+def csvRead (text : Str) : List (List Str) × Bool := csvRecords .init (csvLines text)
+
+/-- `list(csv.reader(io.StringIO(text)))`; `none` for `_csv.Error` -/
 def csvParse (text : Str) : Option (List (List Str)) :=
-  let rec go (fuel : Nat) (st : CsvState) (cs : Str) (field : Str) (row : List Str)
-      (rows : List (List Str)) : Option (List (List Str)) :=
-    match fuel with
-    | 0 => none
-    | fuel+1 =>
-    let endRec := fun (row : List Str) => rows ++ [row]
-    match cs with
-    | [] =>
-      match st with
-      | .startRecord => some rows
-      | .eatCrnl => some rows
-      | .startField => some (endRec (row ++ [[]]))
-      | .inField => some (endRec (row ++ [field.reverse]))
-      | .quoteInQuoted => some (endRec (row ++ [field.reverse]))
-      | .inQuoted => some (endRec (row ++ [field.reverse]))   -- non-strict: unterminated quote at EOF
-    | c :: rest =>
-      match st with
-      | .startRecord =>
-        if c == '\n' || c == '\r' then go fuel .eatCrnl cs [] [] rows   -- empty line handled below
-        else go fuel .startField cs [] [] rows
-      | .startField =>
-        if c == '\n' || c == '\r' then go fuel .eatCrnl rest [] [] (endRec (row ++ [[]]))
-        else if c == '"' then go fuel .inQuoted rest [] row rows
-        else if c == ',' then go fuel .startField rest [] (row ++ [[]]) rows
-        else go fuel .inField rest [c] row rows
-      | .inField =>
-        if c == '\n' || c == '\r' then go fuel .eatCrnl rest [] [] (endRec (row ++ [field.reverse]))
-        else if c == ',' then go fuel .startField rest [] (row ++ [field.reverse]) rows
-        else go fuel .inField rest (c :: field) row rows
-      | .inQuoted =>
-        if c == '"' then go fuel .quoteInQuoted rest field row rows
-        else go fuel .inQuoted rest (c :: field) row rows
-      | .quoteInQuoted =>
-        if c == '"' then go fuel .inQuoted rest ('"' :: field) row rows
-        else if c == ',' then go fuel .startField rest [] (row ++ [field.reverse]) rows
-        else if c == '\n' || c == '\r' then go fuel .eatCrnl rest [] [] (endRec (row ++ [field.reverse]))
-        else go fuel .inField rest (c :: field) row rows      -- non-strict
-      | .eatCrnl =>
-        if c == '\n' || c == '\r' then go fuel .eatCrnl rest [] [] rows
-        else go fuel .startRecord cs [] [] rows
-  go (2 * text.length + 4) .startRecord text [] [] []
+  match csvRead text with
+  | (rows, false) => some rows
+  | (_, true) => none
 
-/-- `Csv.loadf` with `bools_as_int=None` (symbols sniffed from the first data row) -/
-def loadCsv (source : Str) : Except Err Triple :=
-  match csvParse source with
-  | none => .error .valueError
-  | some [] => .error .valueError
-  | some (header :: rows) =>
-    match header, rows with
-    | [], _ => .error .valueError
-    | _ :: _, [] => .error .valueError
-    | _ :: properties, first :: _ =>
-      if first.isEmpty then .error .valueError else
-      let firstSyms := first.drop 1
-      let asInt? : Option Bool :=
-        if firstSyms.all fun s => s == [] || s == ['X'] then some false
-        else if firstSyms.all fun s => s == ['0'] || s == ['1'] then some true
-        else none
-      match asInt? with
-      | none => .error .valueError
-      | some asInt =>
-        let value := fun (s : Str) =>
-          if asInt then (if s == ['1'] then some true else if s == ['0'] then some false else none)
-          else (if s == ['X'] then some true else if s == [] then some false else none)
-        if rows.any (·.isEmpty) then .error .valueError
-        else
-          let parsed := rows.map fun r => ((r.headD []), (r.drop 1).map value)
-          if parsed.all (·.2.all Option.isSome) then
-            .ok (parsed.map (·.1), properties, parsed.map (·.2.map (·.getD false)))
-          else .error .keyError
+/-- cell values of `Csv.values[as_int]` -/
+def csvValue (asInt : Bool) (s : Str) : Option Bool :=
+  if asInt then (if s == ['1'] then some true else if s == ['0'] then some false else none)
+  else (if s == ['X'] then some true else if s == [] then some false else none)
+
+/-- `for obj, *symbols in rows: …` — rows are consumed one by one, so the first failing row
+decides the exception; when the rows run out the reader's own end (`bad`: `_csv.Error`) shows -/
+def csvLoop (asInt : Bool) (bad : Bool) : List (List Str) → Except String (List Str × List (List Bool))
+  | [] => if bad then .error "Error" else .ok ([], [])
+  | [] :: _ => .error "ValueError"
+  | (obj :: symbols) :: rest =>
+    if (symbols.map (csvValue asInt)).all Option.isSome then
+      match csvLoop asInt bad rest with
+      | .ok (os, bs) => .ok (obj :: os, (symbols.map fun s => (csvValue asInt s).getD false) :: bs)
+      | .error e => .error e
+    else .error "KeyError"
+
+/-- `Csv.loads(source)` with `bools_as_int=None` (symbols sniffed from the first data row).
+The error is the name of the exception class: `StopIteration` (leaked from `next(reader)`),
+`Error` (`_csv.Error`), `ValueError` (unpacking an empty row, unknown symbols), `KeyError`. -/
+def loadCsvE (source : Str) : Except String Triple :=
+  let (rows, bad) := csvRead source
+  let stop := if bad then "Error" else "StopIteration"
+  match rows with
+  | [] => .error stop
+  | [] :: _ => .error "ValueError"
+  | (_ :: _) :: [] => .error stop
+  | (_ :: _) :: [] :: _ => .error "ValueError"
+  | (_ :: properties) :: (first :: firstSyms) :: rest =>
+    let asInt? : Option Bool :=
+      if firstSyms.all fun s => s == [] || s == ['X'] then some false
+      else if firstSyms.all fun s => s == ['0'] || s == ['1'] then some true
+      else none
+    match asInt? with
+    | none => .error "ValueError"
+    | some asInt =>
+      match csvLoop asInt bad ((first :: firstSyms) :: rest) with
+      | .ok (objects, bools) => .ok (objects, properties, bools)
+      | .error e => .error e
+
+/-! ### independent strict readers
+
+Written from the descriptions of the formats alone (layout of an ASCII-art table, the Burmeister
+`.cxt` line layout, RFC 4180), not from the library's loaders: they share no code with
+`loadTable`/`loadCxt`/`loadCsvE` and accept only the exact layout. -/
+
+/-- all or nothing -/
+def seqOpt {α : Type} : List (Option α) → Option (List α)
+  | [] => some []
+  | none :: _ => none
+  | some a :: l => match seqOpt l with
+    | some as => some (a :: as)
+    | none => none
+
+/-- remove the padding blanks (U+0020 only) at the right end of a cell -/
+def rtrimSp (s : Str) : Str := (s.reverse.dropWhile (· == ' ')).reverse
+
+/-- the cells of one table line: `indent` blanks, then cells each followed by `|` -/
+def strictCells (indent : Nat) (line : Str) : Option (List Str) :=
+  if line.take indent != List.replicate indent ' ' then none else
+  let cells := splitChar '|' (line.drop indent)
+  if cells.getLast? != some [] then none else some cells.dropLast
+
+/-- a data cell is exactly `X` or blank (up to padding) -/
+def strictFlag (cell : Str) : Option Bool :=
+  if rtrimSp cell == ['X'] then some true else if rtrimSp cell == [] then some false else none
+
+/-- strict reader of the ASCII-art table: lines separated by `\n` (no final line break); every line is
+`indent` blanks followed by cells that are each closed by `|`; all lines have their `|` in the same
+columns; a cell is its text padded with blanks on the right; the first cell of the header is blank,
+the others are the (non-blank) properties; a data line has the (non-blank) object in the first
+cell and `X` or blank in each of the other cells, one per property; at least one property and one
+object -/
+def strictTable (indent : Nat) (src : Str) : Option Triple :=
+  match seqOpt ((splitChar '\n' src).map (strictCells indent)) with
+  | some ((corner :: props) :: rows) =>
+    if rtrimSp corner != [] || props.isEmpty || rows.isEmpty then none else
+    if rows.any fun r => r.map (·.length) != (corner :: props).map (·.length) then none else
+    let properties := props.map rtrimSp
+    let objects := rows.map fun r => rtrimSp (r.headD [])
+    if properties.any (·.isEmpty) || objects.any (·.isEmpty) then none else
+    match seqOpt (rows.map fun r => seqOpt ((r.drop 1).map strictFlag)) with
+    | some bools => some (objects, properties, bools)
+    | none => none
+  | _ => none
+
+/-- one more decimal digit -/
+def strictDigit (acc : Option Nat) (c : Char) : Option Nat :=
+  match acc with
+  | none => none
+  | some a => if '0' ≤ c ∧ c ≤ '9' then some (10 * a + (c.toNat - '0'.toNat)) else none
+
+/-- a decimal number: one or more ASCII digits -/
+def strictNat (s : Str) : Option Nat :=
+  if s.isEmpty then none else s.foldl strictDigit (some 0)
+
+/-- strict reader of the Burmeister format: every line ends with `\n`; the lines are `B`, an empty
+line, the number `n` of objects, the number `m` of properties, an empty line, `n` object lines,
+`m` property lines, `n` lines of exactly `m` characters `X` or `.`; nothing else -/
+def strictCxt (src : Str) : Option Triple :=
+  match splitChar '\n' src with
+  | b :: e1 :: ns :: ms :: e2 :: rest =>
+    if b != ['B'] || e1 != [] || e2 != [] then none else
+    match strictNat ns, strictNat ms with
+    | some n, some m =>
+      -- the final `\n` leaves an empty piece after the last line
+      if rest.length != n + m + n + 1 || rest.getLast? != some [] then none else
+      let rows := ((rest.drop (n + m)).take n).map fun r =>
+        if r.length != m then none
+        else seqOpt (r.map fun c => if c == 'X' then some true else if c == '.' then some false else none)
+      match seqOpt rows with
+      | some bools => some (rest.take n, (rest.drop n).take m, bools)
+      | none => none
+    | _, _ => none
+  | _ => none
+
+inductive RfcState where
+  | recStart    -- at the beginning of a record
+  | fieldStart  -- after a comma
+  | plain       -- inside a non-escaped field
+  | quoted      -- inside an escaped field
+  | quoteSeen   -- after a `"` inside an escaped field: the closing quote or the first of a doubled one
+  | crSeen      -- after the CR that follows a complete field
+deriving DecidableEq, Repr
+
+/-- strict RFC 4180 automaton: `record = field *("," field)`, every record is terminated by CR LF,
+`field = escaped / non-escaped`, an escaped field is enclosed in `"` and may contain anything with
+`"` doubled, a non-escaped field contains no `,` `"` CR LF; an empty line is not a record.
+`fld` holds the characters of the pending field (most recent first), `row` the pending record. -/
+def rfcGo : RfcState → Str → List Str → Str → Option (List (List Str))
+  | st, _, _, [] => if st = .recStart then some [] else none
+  | .crSeen, _, row, c :: cs =>
+    if c == '\n' then (rfcGo .recStart [] [] cs).map (row :: ·) else none
+  | .quoted, fld, row, c :: cs =>
+    if c == '"' then rfcGo .quoteSeen fld row cs else rfcGo .quoted (c :: fld) row cs
+  | .quoteSeen, fld, row, c :: cs =>
+    if c == '"' then rfcGo .quoted ('"' :: fld) row cs
+    else if c == ',' then rfcGo .fieldStart [] (row ++ [fld.reverse]) cs
+    else if c == '\r' then rfcGo .crSeen [] (row ++ [fld.reverse]) cs
+    else none
+  | .plain, fld, row, c :: cs =>
+    if c == ',' then rfcGo .fieldStart [] (row ++ [fld.reverse]) cs
+    else if c == '\r' then rfcGo .crSeen [] (row ++ [fld.reverse]) cs
+    else if c == '"' || c == '\n' then none
+    else rfcGo .plain (c :: fld) row cs
+  | .fieldStart, _, row, c :: cs =>
+    if c == '"' then rfcGo .quoted [] row cs
+    else if c == ',' then rfcGo .fieldStart [] (row ++ [[]]) cs
+    else if c == '\r' then rfcGo .crSeen [] (row ++ [[]]) cs
+    else if c == '\n' then none
+    else rfcGo .plain [c] row cs
+  | .recStart, _, row, c :: cs =>
+    if c == '"' then rfcGo .quoted [] row cs
+    else if c == ',' then rfcGo .fieldStart [] (row ++ [[]]) cs
+    else if c == '\r' || c == '\n' then none
+    else rfcGo .plain [c] row cs
+
+/-- the records of an RFC 4180 text -/
+def rfcRecords (text : Str) : Option (List (List Str)) := rfcGo .recStart [] [] text
+
+/-- a cell of the csv table for a symbol set (`asInt`: `1`/`0`, otherwise `X`/empty) -/
+def strictCsvCell (asInt : Bool) (s : Str) : Option Bool :=
+  if s == (if asInt then ['1'] else ['X']) then some true
+  else if s == (if asInt then ['0'] else []) then some false else none
+
+/-- a data record: the object, then one cell for each of the `m` properties -/
+def strictCsvRow (asInt : Bool) (m : Nat) : List Str → Option (Str × List Bool)
+  | [] => none
+  | obj :: cells =>
+    if cells.length != m then none else
+    match seqOpt (cells.map (strictCsvCell asInt)) with
+    | some bs => some (obj, bs)
+    | none => none
+
+/-- strict reader of the csv table of a context for a given symbol set: RFC 4180 text; the first
+record is the header with an empty first field followed by the properties; every other record is
+an object followed by one cell per property -/
+def strictCsv (asInt : Bool) (src : Str) : Option Triple :=
+  match rfcRecords src with
+  | some (([] :: properties) :: rows) =>
+    match seqOpt (rows.map (strictCsvRow asInt properties.length)) with
+    | some t => some (t.map (·.1), properties, t.map (·.2))
+    | none => none
+  | _ => none
 
 /-! ### wiki table, FIMI -/
 
@@ -260,6 +471,14 @@ def showTriple : Except Err Triple → String
   | .ok (o, p, b) => s!"ok {hexOfStrList o} {hexOfStrList p} {strOfBools b}"
   | .error e => e.name
 
+def showTripleE : Except String Triple → String
+  | .ok (o, p, b) => s!"ok {hexOfStrList o} {hexOfStrList p} {strOfBools b}"
+  | .error e => e
+
+def showOptTriple : Option Triple → String
+  | some (o, p, b) => s!"ok {hexOfStrList o} {hexOfStrList p} {strOfBools b}"
+  | none => "none"
+
 def fmtRequest : List String → String
   | ["dump", "table", indent, os, ps, bs] =>
     hexOfStr (dumpTable indent.toNat! (strListOfHex os) (strListOfHex ps) (boolsOfStr bs))
@@ -270,7 +489,10 @@ def fmtRequest : List String → String
   | ["dump", "fimi", bs] => hexOfStr (dumpFimi (boolsOfStr bs))
   | ["load", "table", src] => showTriple (loadTable (strOfHex src))
   | ["load", "cxt", src] => showTriple (loadCxt (strOfHex src))
-  | ["load", "csv", src] => showTriple (loadCsv (strOfHex src))
+  | ["load", "csv", src] => showTripleE (loadCsvE (strOfHex src))
+  | ["strict", "table", indent, src] => showOptTriple (strictTable indent.toNat! (strOfHex src))
+  | ["strict", "cxt", src] => showOptTriple (strictCxt (strOfHex src))
+  | ["strict", "csv", asInt, src] => showOptTriple (strictCsv (asInt == "1") (strOfHex src))
   | ["strip", s] => hexOfStr (strip (strOfHex s))
   | _ => "bad-request"
 
